@@ -257,6 +257,13 @@ theorem refusals (ops : List Op) :
     · exact ⟨_, rfl⟩
     · exact ⟨_, rfl⟩
 
+/-- the exhausted states of `refusals` are reachable: 48 interface registrations fill the 64 slots and the 49th is
+    refused; 64 basic registrations fill the dynamic range (the metatype and generic ranges are filled by the `cap:`
+    scripts of the differential run) -/
+example : (runOps (List.replicate 48 (.iface none))).ifaces.length = 64 ∧
+    (Op.run (runOps (List.replicate 48 (.iface none))) (.iface none)).2 = none ∧
+    (runOps (List.replicate 64 (.basic 3))).dyn.length = 64 := by decide +kernel
+
 /-- the capacities in `refusals` are exactly those of the id ranges: after the built-in entries
     (16 interface slots, 1 metatype) the tables hold 48 / 1791 / 64 / 1792 registrations -/
 example : Kind.capacity .iface = 64 - 16 ∧ Kind.capacity .mtype = 1792 - 1 ∧ Kind.capacity .basic = 64 ∧ Kind.capacity .generic = 1792 := by
